@@ -3,6 +3,8 @@ import z3
 from ..harness import *
 from ..subst import *
 from ..reference import semantics as sem
+from ..player import ParserOb
+from ..reference import lexer as lx
 
 INT_KINDS = [('Add', 2), ('Subtract', 2), ('Multiply', 2), ('Modulo', 2), ('Divide', 2), ('Negative', 1), ('Abs', 1), ('Sign', 1), ('Min', 2), ('Max', 2), ('Factorial', 1), ('Pow', 2)]
 F64_SHARED_1 = ['Negative', 'Abs', 'Sqrt', 'Sin', 'Cos', 'Tan', 'Sinh', 'Cosh', 'Tanh', 'Asin', 'Acos', 'Atan', 'Arsinh', 'Arcosh', 'Artanh', 'Ln', 'Lb', 'Exp', 'Exp2', 'Sign']
@@ -50,12 +52,19 @@ def obligations(ctx):
             for va, vb in (('Float', 'Float'), ('Integer', 'Float'), ('Float', 'Integer')):
                 a = Leaf('number', 'a', va, 'bv'); b = Leaf('number', 'b', vb, 'bv')
                 obs.append(EvalArm('C15', 'number', k, (k, a, b), numeric_agree(k), oc=oc, label='number-vs-f64/%s[%s%s]/%s' % (k, va[0], vb[0], tag), limits={'timeout_ms': 60000}))
+        # the five parsers group the operators they share in the same way (each against the one reference grammar, hence pairwise the same tree for the same tokens)
+        SH = ['Add', 'Subtract', 'Multiply', 'Divide', 'Modulo', 'Caret']
+        for ev in lx.EVALS:
+            obs.append(ParserOb('C15', ev, None, oc=oc, positions=[['Num'], SH, ['Num'], SH, ['Num']], label='%s/shared-grammar/triple/%s' % (ev, tag)))
+            obs.append(ParserOb('C15', ev, None, oc=oc, positions=[['Subtract'], ['Num'], SH + ['Superscript'], ['Subtract', 'Num'], ['Num', 'Superscript', 'ExclamationMark']], label='%s/shared-grammar/signs/%s' % (ev, tag)))
+            obs.append(ParserOb('C15', ev, None, oc=oc, positions=[['ExplicitFunction:Pow', 'ExplicitFunction:Sqrt', 'ExplicitFunction:Abs'], ['LeftParen'], ['Num'], SH + ['Comma'], ['Num'], ['RightParen'], SH, ['Num']],
+                                label='%s/shared-grammar/calls/%s' % (ev, tag)))
     return obs
 
 
 def run(ctx):
     results = run_obligations(ctx, obligations(ctx))
-    bounds = dict(layer='E, pairwise: (1) the same integer node in eval_i64 and eval_number on the same arbitrary i64 operands: Ok(v) implies Integer(v); (2) every node of the shared f64 grammar in eval_number with a Float operand against the f64 reference semantics that C05/C10 tie eval_f64 to, under the restriction of the statement (finite, below 2^53, no negative zero)',
+    bounds = dict(layer='E, pairwise: (1) the same integer node in eval_i64 and eval_number on the same arbitrary i64 operands: Ok(v) implies Integer(v); (2) every node of the shared f64 grammar in eval_number with a Float operand against the f64 reference semantics that C05/C10 tie eval_f64 to, under the restriction of the statement (finite, below 2^53, no negative zero); (3) P: the five parsers build the reference tree on templates over the operators they share (+ - * / % ^, signs, superscripts, pow/sqrt/abs calls)',
                   pow='exponent 0..8 (thorough 0..64)', factorial='n <= 22', configurations=['overflow-checks=on'] + (['overflow-checks=off'] if ctx.tier == 'thorough' else []))
     outside = ['the 1e-9 agreements of eval_complex and eval_decimal with eval_f64 (numeric tolerance over transcendental / decimal arithmetic: not decidable here)',
                'floor / ceil / round / trunc of eval_number vs eval_f64 (C09 shows they are the correctly rounded integers; equating Integer(n) with the double needs a float/bit-vector round trip z3 does not finish)', 'eval_number vs eval_f64 on Integer-Integer operands (exact integer result vs rounded double sum: needs mixed bit-vector / floating-point reasoning that z3 does not finish); multi-node expressions follow by compositionality (C20) and the parser checks (C04)']
